@@ -14,6 +14,8 @@ TRUSTED = [
     "translator/extract.py for the keyword / bang-operator / directive tables used by model and spec",
 ]
 RULE = ("(1) exhaustive strings up to length N (4 quick, 5 thorough) over the focused alphabet {\" \\ / * 0 1 9 a x b _ ! # . - + $ [ { } ] space LF}; "
+        "(1b) exhaustive strings up to length 5 (6 thorough) over {i n d e f 1 0 _ space} (reserved words next to digits); (1c) every reserved word "
+        "and bang-operator name with every short prefix/suffix glued on; "
         "(2) random sequences of spec-level token instances (each class sampled over its regular language incl. boundary "
         "cases) joined by every separator kind (blank runs, // comments with LF/CRLF/CR, nested /* */); a case is one distinct text")
 FINISH = dict(level="proof", trusted_base=TRUSTED, rule=RULE)
@@ -34,7 +36,19 @@ def looks_like_number(s):
 
 def spec_token(rng, kw, bangs):
     """(text, expected kind predicate description, kind name or prefix)"""
-    c = rng.choice(["id", "id", "kw", "dec", "hex", "bin", "str", "code", "var", "bang", "punct"])
+    c = rng.choice(["id", "id", "kw", "kwedge", "dec", "hex", "bin", "str", "code", "var", "bang", "punct"])
+    if c == "kwedge":
+        # a reserved word with something glued to it is an ordinary identifier: digits or `_` in front
+        # (identifiers may start with digits), letters/digits/`_` behind, a different case
+        w = rng.choice(sorted(kw))
+        pre = rng.choice(["", "1", "0", "42", "007", "_", "x", "9_"])
+        suf = rng.choice(["", "", "1", "_", "s", "X"]) if pre else rng.choice(["1", "_", "s", "X", "0"])
+        s = pre + w + suf
+        if rng.random() < 0.15:
+            s = (pre or "") + w.capitalize() + suf if w.capitalize() not in kw else s
+        if s in kw or looks_like_number(s):
+            s = "_" + s
+        return s, "Id"
     if c == "id" and rng.random() < 0.25:
         # identifiers next to the integer syntax: digits, then a letter that is not the start of a hex/binary literal
         s = rng.choice(["0b2", "0b9", "0b2a", "0b7_lane", "0b35x", "0b_", "0bz", "0b", "0x", "0xg", "0xG1", "0x_1", "00b1", "00x1", "10b1", "1x1",
@@ -145,6 +159,18 @@ def run(ck):
         core.compare(ck, "exhaustive", batch, lambda s: "lex %s" % hexs(s), counted=True)
         total += len(batch)
         ck.count("exhaustive", 0, set(batch), sample={"text": batch[len(batch) // 2]})
+    # (1b) exhaustive short strings over letters that spell reserved words (`in`, `def`, `if`) next to digits and `_`
+    alpha2 = ["i", "n", "d", "e", "f", "1", "0", "_", " "]
+    batch = ["".join(tup) for k in range(1, (5 if quick else 6) + 1) for tup in itertools.product(alpha2, repeat=k)]
+    core.compare(ck, "exhaustive_words", batch, lambda s: "lex %s" % hexs(s), counted=True)
+    total += len(batch)
+    ck.count("exhaustive_words", 0, set(batch), sample={"text": batch[len(batch) // 2]})
+    # (1c) every reserved word and bang operator with every short prefix/suffix glued on: model vs implementation
+    glue = ["", "1", "0", "42", "_", "x", "0x", "0b", "0b1", "0x1", "!", "#", "$", "-", "+", "."]
+    words = sorted(kw) + [b.lstrip("!") for b in bangs]
+    batch = [pre + w + suf for w in words for pre in glue for suf in ["", "1", "_", "x", " ", "!"]]
+    core.compare(ck, "glued_words", batch, lambda s: "lex %s" % hexs(s), counted=True)
+    ck.count("glued_words", 0, set(batch), sample={"text": batch[len(batch) // 3]})
     # (2) spec-level sequences: reference expectation vs implementation (and model)
     cases = []
     for _ in range(1500 if quick else 400000):
